@@ -3,5 +3,5 @@ CONSTANTS NMin = 3
           NMax = 8
           TailNMax = 32
           LatN = {9, 12, 16, 21, 27, 31, 32}
-INVARIANT TailOk PairsOk ShiftOk LatOk DTailOk
+INVARIANT TailOk PairsOk ShiftOk LatOk DTailOk ATailOk
 CHECK_DEADLOCK FALSE
